@@ -60,6 +60,7 @@ func verifyFunction(w *World, specs *Specs, tt *TypeTable, fn *ssa.Function, c *
 	vc.tparamsEnv = typeParamsOf(fn)
 	vc.findLoops()
 	st := &State{vals: map[ssa.Value]Val{}, heap: newHeap(), callCount: map[string]int{}, iters: map[ssa.Value]*iterInfo{}, wgAdded: map[string]Term{}, loopHeap: map[*ssa.BasicBlock]*Heap{}}
+	st.assume = append(st.assume, app(">=", vc.top(st), "0"))
 	for _, p := range fn.Params {
 		s := sortOf(p.Type())
 		t := vc.d.declConst("p_"+sanitize(p.Name()), s)
@@ -74,9 +75,15 @@ func verifyFunction(w *World, specs *Specs, tt *TypeTable, fn *ssa.Function, c *
 	if recv := fn.Signature.Recv(); recv != nil && isPointerRecv(recv.Type()) && len(fn.Params) > 0 {
 		st.assume = append(st.assume, not(eq(st.vals[fn.Params[0]].T, "0")))
 	}
+	vc.curState = st
 	env := vc.fnEnv(st, newHeap())
 	vc.bindSelf(env)
 	vc.bindLetsOld(env, vc.effective)
+	for _, gt := range vc.effective.GhostTags {
+		if tv, ok := env.vars[gt]; ok && tv.S.Sort == "Slice" {
+			vc.retag(st, tv.T)
+		}
+	}
 	for _, r := range vc.effective.Requires {
 		st.assume = append(st.assume, vc.trClause(env, r))
 	}
